@@ -9,6 +9,7 @@ import typing as T
 from ..core import Module, Undecided, norm, short, attr_chain, names_in, walk_no_nested
 from ..report import RuleCtx
 from .. import tables
+from .c19_norm import normalise
 
 DUNDER_OP = {'__lt__': 'lt', '__gt__': 'gt', '__le__': 'le', '__ge__': 'ge'}
 
@@ -105,7 +106,8 @@ def ranking_keys(ctx: RuleCtx, mod: Module, cls: str, core: str) -> T.List[T.Tup
     name = core if core in meths else f'_{cls}{core}' if f'_{cls}{core}' in meths else core
     if name not in meths:
         raise Undecided(f'{cls}.{core} not found')
-    fn = meths[name]
+    # locals are resolved by their reaching definition first (hoisted `a = self._v`, renamed flags)
+    fn = normalise(meths[name])
     qn = f'{cls}.{name}'
     params = [a.arg for a in fn.args.args]
     if len(params) != 3:
